@@ -460,7 +460,9 @@ class PoolApiStream(Stream):
                     del latest[k]
             if e["t"] == "bounds":
                 cur = e["sys"]
-            if e["t"] == "burst":
+            # a proposal that reaches the manager before it has received any bounds for the group is ignored
+            # (documented; model: gcalc on a group that does not exist yet under no bounds)
+            if e["t"] == "burst" and cur is not None:
                 for c in e["calls"]:
                     pc = expected_proposal(case, {"t": "power", **c})
                     if pc in REJECT:
@@ -475,7 +477,7 @@ class PoolApiStream(Stream):
                 out.append({"what": f"api: step {i} {e}: raised {x['error']}", "finding": None})
             if p in REJECT and (x["request"] is not None):
                 out.append({"what": f"api: step {i} {e}: a rejected call still produced a request", "finding": None})
-            if p not in (None,) + REJECT:
+            if p not in (None,) + REJECT and cur is not None:
                 latest[e["pool"]] = {"prio": p["prio"], "src": obs["sources"][e["pool"]], "pref": p["pref"], "lo": p["lo"], "hi": p["hi"],
                                      "t_us": x["time"]}
             r = x["request"]
